@@ -7,10 +7,13 @@ import Jsonapi.Driver.Schema
 import Jsonapi.Driver.Filter
 import Jsonapi.Driver.Range
 import Jsonapi.Driver.Struct
+import Jsonapi.Driver.Resource
 open Jsonapi Jsonapi.Driver
 
 structure DState where
   schema : Schema := Schema.empty
+  res : ResState := {}
+  col : SColl := default
 
 def stepLine (st : DState) (line : String) : DState × String :=
   match Sx.parseLine line with
@@ -26,6 +29,12 @@ def stepLine (st : DState) (line : String) : DState × String :=
   | [.list (.atom "struct" :: args)] =>
     let (m, sp, dom) := stepStruct args
     (st, m ++ "\t" ++ sp ++ "\t" ++ (if dom then "1" else "0"))
+  | [.list (.atom "res" :: args)] =>
+    let (r', m, sp, dom) := stepRes st.res args
+    ({ st with res := r' }, m ++ "\t" ++ sp ++ "\t" ++ (if dom then "1" else "0"))
+  | [.list (.atom "col" :: args)] =>
+    let (c', m, sp, dom) := stepCol st.col args
+    ({ st with col := c' }, m ++ "\t" ++ sp ++ "\t" ++ (if dom then "1" else "0"))
   | _ => (st, "bad-line\t-\t0")
 
 partial def loop (h : IO.FS.Stream) (out : IO.FS.Stream) (st : DState) : IO Unit := do
